@@ -49,7 +49,7 @@ SPEC = dict(
         ref="DESIGN.md §6 C17"),
     imports="From Coq Require Import Uint63 ZArith.\nFrom Ship Require Import Base Pack Txt MdnsMap.\nOpen Scope N_scope.",
     case_type="c17_case", check_fn="check_c17",
-    drivers=[dict(bin="mdnsdrv", args=["-prop", "C17"], n_quick=1200, n_thorough=30000)],
+    drivers=[dict(bin="mdnsdrv", args=["-prop", "C17"], n_quick=1600, n_thorough=30000)],
     codes={10: "map_differs_from_history_duplicate_address_in_one_add", 11: "map_differs_from_history",
            12: "visible_ski_set_differs_after_some_prefix", 13: "report_missing_spurious_or_not_the_stored_state",
            14: "last_in_order_report_is_not_the_final_map",
